@@ -5,7 +5,9 @@ MCTree == { P(<<>>, "f.py", "py"), P(<<>>, "g.rs", "rs"),
             P(<<"a">>, "f.py", "py"), P(<<"b">>, "f.py", "py"), P(<<"b", "b">>, "g.py", "py"), P(<<"a", "b">>, "f.rs", "rs"),
             P(<<"src">>, "m.py", "py"), P(<<"src", "x y">>, "n.rs", "rs"), P(<<"gen">>, "f.py", "py"),
             P(<<".hid">>, "h.py", "py"), P(<<"hid">>, "h.py", "py"), P(<<"src">>, "ig.py", "py"),
-            P(<<"pkg.py">>, "inner.rs", "rs") }       \* a directory whose own name looks like a file that globs match
+            P(<<"pkg.py">>, "inner.rs", "rs"),
+            P(<<"src">>, "uname f.py", "py") }        \* spelt with a non-ASCII letter (and a space) by the concretiser       \* a directory whose own name looks like a file that globs match
+MCQuoted == { P(<<"src">>, "uname f.py", "py") }
 MCHidden == { P(<<".hid">>, "h.py", "py") }
 MCGitIgnored == { P(<<"src">>, "ig.py", "py") }
 MCGlobPool == { [form |-> "ext", arg |-> "py"], [form |-> "ext", arg |-> "rs"],
